@@ -747,7 +747,10 @@ class Registry:
 
     def model_for(self, f):
         try:
-            for p in getattr(self, 'current_props', ()):
+            # Module.model(...) registrations apply to the functions of the same sidecar module and of the
+            # modules that import it (C03 builds on C01's models, C17 on C04's); the ghost file system of C04
+            # and the path model of C12 do not see each other
+            for p in getattr(self, 'current_scope', None) or getattr(self, 'current_props', ()):
                 m = self.scoped_models.get(p, {}).get(f)
                 if m is not None:
                     return m
